@@ -105,6 +105,10 @@ func c20fGen(t *rapid.T) c20fCase {
 	for i := 0; i < 2; i++ {
 		c.Cfg.Accounts = append(c.Cfg.Accounts, harness.AccountSpec{PID: fmt.Sprintf("sms%d@x.io", i), Password: goodPWs[i%4], Phone: fmt.Sprintf("+1555010%d", i), Recovery: 1})
 	}
+	for i := 0; i < 2; i++ {
+		c.Cfg.Accounts = append(c.Cfg.Accounts, harness.AccountSpec{PID: fmt.Sprintf("totp%d@x.io", i), Password: goodPWs[i%4], TOTP: true, Recovery: 1})
+	}
+	c.Cfg.OneTimeTOTP = chance(t, "onetimetotp", 60)
 	steps := func(label string) []string {
 		n := rapid.IntRange(2, 5).Draw(t, label)
 		var sc []string
